@@ -248,7 +248,7 @@ def edit_ops(rng, b, s, bias=None):
     pts = [p for p in b.points if p]
     metrics = b.info.get("metrics") or []
     kind = rng.choice(["metric", "metric", "cons", "lmi", "func_cons", "part_cons", "remove_cons", "more_samples",
-                       "param", "late_cons", "late_cons", "metric_replace"])
+                       "param", "late_cons", "late_cons", "metric_replace", "rename", "adjoint_sample"])
     if bias and rng.random() < 0.6:
         kind = bias
     tag = "ed%d_" % s
@@ -297,6 +297,19 @@ def edit_ops(rng, b, s, bias=None):
             ops.append({"op": "setparam", "f": b.info["main_f"], "attr": "D", "value": "inf"})
         elif fop and fop["cls"] == "ConvexSupportFunction" and "M" in (fop.get("params") or {}):
             ops.append({"op": "setparam", "f": b.info["main_f"], "attr": "M", "value": "inf"})
+    elif kind == "rename":
+        # a function and / or a sampled point get another name between two solves
+        if b.info.get("main_f") and rng.random() < 0.6:
+            ops.append({"op": "rename", "h": b.info["main_f"], "name": "fun_%s" % tag})
+        if pts and rng.random() < 0.7:
+            ops.append({"op": "rename", "h": rng.choice(pts), "name": "pt_%s" % tag})
+    elif kind == "adjoint_sample" and b.info.get("cls") == "LinearOperator" and b.info.get("main_f"):
+        # only the adjoint gets one more sample (the operator's own list of points is unchanged)
+        q = tag + "u"
+        ops.append({"op": "newpoint", "out": q})
+        ops.append({"op": "gradient", "out": tag + "w", "f": b.info["main_f"] + "T", "x": q})
+        ops.append({"op": "sq", "out": tag + "ue", "a": q})
+        ops.append({"op": "cons", "out": tag + "uc", "lhs": tag + "ue", "rel": "<=", "rhs": 1.0, "target": b.P})
     elif kind == "remove_cons":
         red = [o["out"] for o in b.ops if o["op"] == "cons" and o.get("target") == b.P and o.get("how") != "initial"]
         if red:
